@@ -4,7 +4,7 @@
 Require Extraction.
 Require Import ExtrOcamlBasic.
 From Similar Require Import Model.Base Model.Utils Model.Myers Model.Lcs Model.Hooks
-     Model.Patience Model.Compact Model.Capture Model.Iter Check.Script.
+     Model.Patience Model.Compact Model.Capture Model.Iter Spec.Script Check.Script.
 
 
 Extraction "../ocaml/model.ml"
